@@ -161,3 +161,69 @@ def decoder_contract(U):
     if o.ok:
         U.ensures("the decoded text has exactly the encoded UTF-16 code units", _units(o.value) == us,
                   got=_units(o.value)[:12], want=us[:12])
+
+
+# ------------------------------------------------------------------------------------------------
+# Loop contract (unbounded + termination): read_null_terminated_string on a stream of ARBITRARY length and content.
+# Ghost state: the file is an uninterpreted memory of symbolic length; the chunk list is viewed as `the chunks tile
+# mem[p0, pos)`.  Invariant: p0 <= pos <= len, the chunks read so far are exactly mem[p0, pos), and (Skolem j) no byte in
+# [p0, pos) is NUL.  Variant: len - pos (every iteration that continues consumed at least one byte) => the loop terminates on every
+# input, in at most len - p0 iterations.
+from pyvc.loops import GhostChunks, LoopSpec  # noqa: E402
+from pyvc import ubuf  # noqa: E402
+
+def _tot(x):
+    return x.tot if isinstance(x, GhostChunks) else sum(len(c) for c in x)
+
+
+def _inv_rnts(spec, L, k):
+    g, f = spec.G, L["f"]
+    return And(f.pos >= g["p0"], f.pos <= f.buf.length, _tot(L["x"]) == f.pos - g["p0"],
+               Implies(And(g["p0"] <= g["j"], g["j"] < f.pos), g["mem"].byte(g["j"]) != 0))
+
+
+RNTS = LoopSpec("read_null_terminated_string#0", invariant=_inv_rnts, variant=lambda s, L, k: L["f"].buf.length - L["f"].pos,
+                havoc={"x": lambda s, L: GhostChunks("chunks", s.G["mem"], s.G["p0"], s.G["U"].int("tot@", 0, ubuf.MAXLEN))},
+                heap=("f",))
+
+
+@unit("C06", covers=[(DEX, "read_null_terminated_string")],
+      loops={(DEX, "read_null_terminated_string", 0): RNTS}, samples=200, max_paths=2000, timeout_ms=60000, terminates=True,
+      note="loop contract, stream of any length and content: the arbitrary iteration reads a full 128-byte chunk or a shorter "
+           "one of symbolic length; the position of the first NUL in the chunk stays symbolic")
+def null_terminated_unbounded(U):
+    m = U.mod(DEX)
+    if U.mode != "sym":
+        n = U.int("n", 0, 400)
+        data = bytearray(U.bytes("data", n))
+        if n and U.bool("plant_nul"):
+            data[U.int("nul_at", 0, n - 1)] = 0
+        p0 = U.int("p0", 0, n + 3)
+        f = U.stream(bytes(data), p0)
+        o = U.call(m.read_null_terminated_string, f)
+        U.ensures("terminates without error", o.ok, exc=repr(o.exc))
+        if o.ok:
+            k = bytes(data).find(b"\0", p0) if p0 <= n else -1
+            want = bytes(data[p0:k]) if k >= 0 else bytes(data[p0:])
+            U.ensures("exactly the bytes before the first NUL (or up to the end of the data)", bytes(o.value) == want, got=bytes(o.value)[:20])
+            U.ensures("the stream is just behind the NUL (at the end of the data if there is none)",
+                      f.tell() == (k + 1 if k >= 0 else max(n, p0)), pos=f.tell())
+        return
+    mem = ubuf.SymMem("file")
+    buf = ubuf.SymBuf(mem, 0, U.int("len", 0, ubuf.MAXLEN))
+    p0 = U.int("p0", 0, ubuf.MAXLEN)
+    U.assume(p0 <= buf.length)
+    j = U.int("j", 0, ubuf.MAXLEN)
+    f = ubuf.SymStreamU(buf, p0, "f")
+    RNTS.G = {"mem": mem, "p0": p0, "j": j, "U": U}
+    o = U.call(m.read_null_terminated_string, f)
+    U.ensures("terminates without error", o.ok, exc=repr(o.exc))
+    if not o.ok:
+        return
+    r = o.value
+    U.ensures("the result is a window of the data that starts at the start position", isinstance(r, ubuf.SymBuf) and r.mem is mem and
+              Eq(r.base, p0))
+    ln, pos = r.length, f.pos
+    U.ensures("no returned byte is NUL", Implies(And(p0 <= j, j < p0 + ln), mem.byte(j) != 0))
+    U.ensures("either the byte behind the result is the NUL and the stream is just behind it, or the data ended without a NUL",
+              Or(And(pos == p0 + ln + 1, pos <= buf.length, mem.byte(p0 + ln) == 0), And(pos == buf.length, ln == buf.length - p0)))
